@@ -71,7 +71,11 @@ struct MNode {
     edges: BTreeMap<usize, BTreeMap<String, V>>,
 }
 
-const NAMES: &[&str] = &["a", "b", "c", "name", "kind", "x-y", "_z"];
+const NAMES: &[&str] = &[
+    "a", "b", "c", "name", "kind", "x-y", "_z",
+    // names that share a long prefix, differ only in case, or extend one another
+    "an_attribute_name_that_is_longer_than_32_bytes_first", "an_attribute_name_that_is_longer_than_32_bytes_second", "Kind", "name_range", "ünï-cødé",
+];
 
 /// compare everything observable about the graph with the model
 fn compare_graph(graph: &Graph, model: &[MNode]) -> Result<(), String> {
